@@ -18,6 +18,8 @@ import YashModel.Proc.Steps
 import YashModel.Proc.Awaited
 import YashModel.Proc.Ops
 import YashModel.Proc.PipelineMeasure
+import YashModel.Proc.Joint
+import YashModel.Proc.FdLemmas
 import YashModel.Proc.Spec
 namespace YashModel.Proc
 
@@ -514,5 +516,163 @@ theorem hygiene_necessary :
     | 0 => rfl
     | 1 => rfl
     | i + 2 => simp [stageStep, t]
+
+/-! ### the joint system: parent + children whose steps are pipe reads, writes and exits (`Joint.lean`) -/
+
+theorem joint_run_bounded {c : PCfg} (hv : c.Valid) {reqs : List Req} {n : Nat} {j k : JSys}
+    (hj : JInv c reqs j) (h : JStepsN c n j k) : JInv c reqs k ∧ n + jmeasure k ≤ jmeasure j := by
+  induction h with
+  | refl => exact ⟨hj, by simp⟩
+  | tail lab _ hs ih =>
+    obtain ⟨h1, h2⟩ := ih hj
+    obtain ⟨h3, h4⟩ := jinv_step hv lab h1 hs
+    exact ⟨h3, by omega⟩
+
+/-- ★ `joint_terminates_and_reaps`.  ONE system: the shell as the parent of `Model.lean` (its requests:
+    `wait(pid)` for the members as `execute_multi_command_pipeline` issues them, and any `wait(-1)` /
+    `update_all_subshell_statuses` besides) and the pipeline `progs` (any number of stages `spew`/`take`/
+    `drain`/`cat`/`st`, descriptors as the set-up leaves them) whose steps are pipe reads, writes and
+    exits, under an arbitrary scheduler that picks the parent or any stage.  For every state `j` the
+    scheduler can reach:
+    (1) every step of every process strictly decreases `jmeasure` — every schedule is finite, no fairness
+        assumption is needed (`joint_run_bounded`: at most `jmeasure` steps);
+    (2) as long as the parent is not done or a stage is alive, some process can move (no deadlock: neither
+        the parent in `wait` nor the stages among themselves);
+    (3) a state with the parent done and every stage ended can be reached;
+    (4) once the parent is done, every member it was asked to wait for has ended, is reaped (no zombie), was
+        handed out by `wait` exactly once, with the status it really ended with;
+    (5) at any time, whatever `wait` has handed out for child `i` is the status stage `i` ended with. -/
+theorem joint_terminates_and_reaps {c : PCfg} (hv : c.Valid) {progs : List SProg} (hne : progs ≠ [])
+    {reqs : List Req} {j : JSys} (hrun : JSteps c (jinit progs reqs) j) :
+    (∀ lab k, jstep c j lab = some k → jmeasure k < jmeasure j) ∧
+    ((j.view.final = false ∨ j.pl.done = false) → ∃ lab k, jstep c j lab = some k) ∧
+    (∃ k, JSteps c j k ∧ k.view.final = true ∧ k.pl.done = true) ∧
+    (j.view.final = true → ∀ i, i < progs.length → Req.wait (.pid i) ∈ reqs →
+      ∃ st stg, j.pl.stages[i]? = some stg ∧ stg.exit = some st ∧ reaped j.view.children i = true ∧
+        logCount j.view.log i = 1 ∧ ∀ r, (i, r) ∈ j.view.log → r = .exited st) ∧
+    (∀ i r, (i, r) ∈ j.view.log →
+      ∃ st stg, j.pl.stages[i]? = some stg ∧ stg.exit = some st ∧ r = .exited st) := by
+  have hinv : JInv c reqs j := jinv_steps hv hrun (jinv_init c progs hne reqs)
+  have hlogged : ∀ i r, (i, r) ∈ j.view.log →
+      ∃ st stg, j.pl.stages[i]? = some stg ∧ stg.exit = some st ∧ r = .exited st := by
+    intro i r hm
+    obtain ⟨cc, h1, h2⟩ := hinv.inv.logged i r hm
+    exact hinv.coupled.status i cc r h1 h2
+  refine ⟨fun lab k hs => (jinv_step hv lab hinv hs).2, jnot_stuck hv hinv, ?_, ?_, hlogged⟩
+  · have key : ∀ n (u : JSys), jmeasure u ≤ n → JInv c reqs u →
+        ∃ k, JSteps c u k ∧ k.view.final = true ∧ k.pl.done = true := by
+      intro n
+      induction n with
+      | zero =>
+        intro u hm hu
+        by_cases hfin : u.view.final = true ∧ u.pl.done = true
+        · exact ⟨u, .refl u, hfin.1, hfin.2⟩
+        · have hlive : u.view.final = false ∨ u.pl.done = false := by
+            cases h1 : u.view.final <;> cases h2 : u.pl.done <;> simp_all
+          obtain ⟨lab, k, hs⟩ := jnot_stuck hv hu hlive
+          have := (jinv_step hv lab hu hs).2; omega
+      | succ n ih =>
+        intro u hm hu
+        by_cases hfin : u.view.final = true ∧ u.pl.done = true
+        · exact ⟨u, .refl u, hfin.1, hfin.2⟩
+        · have hlive : u.view.final = false ∨ u.pl.done = false := by
+            cases h1 : u.view.final <;> cases h2 : u.pl.done <;> simp_all
+          obtain ⟨lab, k, hs⟩ := jnot_stuck hv hu hlive
+          obtain ⟨hk, hlt⟩ := jinv_step hv lab hu hs
+          obtain ⟨t, ht, hf⟩ := ih k (by omega) hk
+          exact ⟨t, JSteps.head lab hs ht, hf⟩
+    exact key _ j (Nat.le_refl _) hinv
+  · intro hfin i hi hreq
+    have hlen : j.view.children.length = progs.length := by
+      rw [hinv.coupled.len, jsteps_len hrun]; simp [jinit, mkPipeline]
+    have ha := hinv.awaited i hreq (by omega)
+    simp only [Sys.final, Bool.and_eq_true, beq_iff_eq, List.isEmpty_iff] at hfin
+    have hreap : reaped j.view.children i = true := by
+      rcases ha with h1 | h1 | h1
+      · rw [hfin.2] at h1; simp at h1
+      · rw [hfin.1] at h1; simp at h1
+      · exact h1
+    have hget : j.view.children[i]? = some j.view.children[i] := List.getElem?_eq_getElem (by omega)
+    have hr := hreap
+    rw [reaped_self hget] at hr
+    simp at hr
+    obtain ⟨r0, hr0⟩ : ∃ r0, (j.view.children[i]).state = .halted r0 := by
+      cases hs : (j.view.children[i]).state with
+      | running f r => simp [hs, PState.isAlive] at hr
+      | halted r => exact ⟨r, rfl⟩
+    obtain ⟨st, stg, h1, h2, h3⟩ := hinv.coupled.status i _ r0 hget hr0
+    refine ⟨st, stg, h1, h2, hreap, by rw [hinv.inv.once i, hreap]; rfl, ?_⟩
+    intro r hm
+    obtain ⟨st', stg', h1', h2', h3'⟩ := hlogged i r hm
+    rw [h1] at h1'; simp at h1'; subst h1'
+    rw [h2] at h2'; simp at h2'; subst h2'
+    exact h3'
+
+/-! ### the descriptor shuffling of a pipeline child (`FdSetup.lean`) -/
+
+/-- ★ `child_setup_establishes_hygiene`.  `PipeSet::move_to_stdin_stdout`, run in the child on the descriptor
+    table it inherits (`ChildStart`: the descriptors named by the `PipeSet` are open, refer to the read end
+    of the incoming pipe / both ends of the outgoing pipe, are pairwise different, and no other descriptor
+    refers to a pipe of this pipeline), succeeds and leaves the stage holding exactly its stdin reader at
+    descriptor 0 and its stdout writer at descriptor 1 (`ChildHygienic`) — for EVERY numbering of the
+    descriptors: pipe ends at 3 and above, or at 0, 1, 2 because the shell's own standard descriptors were
+    closed (the `writer == STDOUT`, `read_previous == STDOUT` → `dup`, `reader == STDIN` branches), first
+    / middle / last stage, and every descriptor `d` the kernel may pick for the `dup` (free once the
+    outgoing read end is closed, not 1). -/
+theorem child_setup_establishes_hygiene {T : FdTab} {ps : PipeSet} {jin jout d : Nat}
+    (h : ChildStart T ps jin jout)
+    (hd : ∀ r w, ps.next = some (r, w) → ps.readPrevious = some 1 → w ≠ 1 → (T d = none ∨ d = r) ∧ d ≠ 1) :
+    ∃ T', moveToStdinStdout T ps d = some T' ∧ ChildHygienic T' ps jin jout :=
+  child_setup_spec h hd
+
+/-- From the children's tables to the holder lists of `Hyg`: if every stage `k` of an `n`-stage pipeline
+    is `ChildHygienic` for incoming pipe `k-1` (present iff `k > 0`) and outgoing pipe `k` (present iff
+    `k + 1 < n`), then the read end of pipe `j` is held by stage `j+1` and by no other stage, the write end
+    by stage `j` and by no other — the `readers = [j+1]`, `writers = [j]` of `mkPipeline`.  (That the PARENT
+    holds no end after the last `PipeSet::shift` is a sequence of plain `close` calls and is not modelled.) -/
+theorem setup_gives_holders {n : Nat} {tabs : Nat → FdTab} {pss : Nat → PipeSet}
+    (hprev : ∀ k, (pss k).readPrevious.isSome = decide (0 < k))
+    (hnext : ∀ k, k < n → (pss k).next.isSome = decide (k + 1 < n))
+    (hh : ∀ k, k < n → ChildHygienic (tabs k) (pss k) (k - 1) k) :
+    (∀ j k fd, k < n → tabs k fd = some (.rd j) → k = j + 1) ∧
+    (∀ j k fd, k < n → tabs k fd = some (.wr j) → k = j) ∧
+    (∀ j, j + 1 < n → tabs (j + 1) 0 = some (.rd j) ∧ tabs j 1 = some (.wr j)) := by
+  refine ⟨?_, ?_, ?_⟩
+  · intro j k fd hk hfd
+    rcases (hh k hk).only fd _ hfd rfl with ⟨_, h2, h3⟩ | ⟨_, h2, _⟩
+    · rw [hprev k] at h3
+      simp at h3
+      simp only [Res.rd.injEq] at h2
+      omega
+    · simp at h2
+  · intro j k fd hk hfd
+    rcases (hh k hk).only fd _ hfd rfl with ⟨_, h2, _⟩ | ⟨_, h2, _⟩
+    · simp at h2
+    · simp only [Res.wr.injEq] at h2; exact h2.symm
+  · intro j hj
+    constructor
+    · have := (hh (j + 1) hj).stdin (by rw [hprev]; simp)
+      simpa using this
+    · exact (hh j (by omega)).stdout (by rw [hnext j (by omega)]; simp [hj])
+
+/-- non-vacuity: a middle stage whose pipe ends sit at descriptors 3, 4, 5 -/
+example :
+    let T : FdTab := fun k =>
+      if k = 3 then some (.rd 0) else if k = 4 then some (.rd 1) else if k = 5 then some (.wr 1)
+      else if k < 3 then some .other else none
+    ChildStart T { readPrevious := some 3, next := some (4, 5) } 0 1 := by
+  intro T
+  refine ⟨by simp [T], by simp [T], by simp [T], by simp, by simp, ?_⟩
+  intro fd res hfd hpe
+  simp only [T] at hfd
+  split at hfd
+  · left; simp_all
+  · split at hfd
+    · right; left; exact ⟨5, by simp_all⟩
+    · split at hfd
+      · right; right; exact ⟨4, by simp_all⟩
+      · split at hfd
+        · simp at hfd; subst hfd; simp [Res.isPipeEnd] at hpe
+        · simp at hfd
 
 end YashModel.Proc
